@@ -333,7 +333,7 @@ def check_directed(chk):
 
 def check_draws(chk, tier):
     rng = chk.rng
-    n = dict(quick=dict(plain=500, fit=500, ctrl=250, esc=150), thorough=dict(plain=8000, fit=8000, ctrl=4000, esc=2000))[tier]
+    n = dict(quick=dict(plain=1200, fit=1200, ctrl=600, esc=400), thorough=dict(plain=25000, fit=25000, ctrl=12000, esc=6000))[tier]
     cases = []
     for stream in ("plain", "fit", "ctrl", "esc"):
         for _ in range(n[stream]):
@@ -476,7 +476,7 @@ def direct_prompt(tp, w, strings):
 
 def check_prompts(chk, tier):
     rng = chk.rng
-    n = 1500 if tier == "quick" else 30000
+    n = 3000 if tier == "quick" else 60000
     cases = [(dict(msg="Please make a selection from the above", opts=[], default=True), w) for w in range(1, 121)]
     cases += [(gen_prompt(rng), rand_width(rng)) for _ in range(n)]
     impls = [impl_text_prompt(c, w) for c, w in cases]
